@@ -806,6 +806,15 @@ pub fn determinism_replay(args: &[String]) {
     let mut out = Out::new(None);
     let (mut n, mut bad) = (0u64, 0u64);
     let obs_key = |o: &Observed| json!([o.st, o.val, o.ctx, o.log.iter().map(|e| json!([e[0], e[1]])).collect::<Vec<_>>()]);
+    // the harness itself registers the global handlers a case names; do all of that first, so that the registries are
+    // only ever touched by parse / evaluation afterwards
+    let mut seen_globals = std::collections::HashSet::new();
+    for r in recs.iter() {
+        let key = json!([r.get("gfun"), r.get("gprefix"), r.get("gpostfix"), r.get("ginfix")]).to_string();
+        if seen_globals.insert(key) {
+            let _ = run_case(r, false);
+        }
+    }
     for idx in 0..recs.len() {
         n += 1;
         let mut why: Vec<String> = Vec::new();
